@@ -403,6 +403,22 @@ def run_store_case(ctx, case, env, replies):
             ctx.tag('joint-put-same-array-two-offsets')
             # the same array name written to TWO stores in one dask computation: both stores receive their chunks
             if case['backend'] == 'npy':
+                # the SAME dask array written to two array names that share their last component (two capture blocks'
+                # flags, say) in one dask computation: both arrays hold it afterwards
+                dx6 = da.from_array(x, chunks=chunks)
+                names6 = [f'{name}_cbA/flags', f'{name}_cbB/flags']
+                try:
+                    for n6 in names6:
+                        store.create_array(n6)
+                    dask.compute(*[store.put_dask_array(n6, dx6) for n6 in names6])
+                    backs = [store.get_dask_array(n6, chunks, dtype, errors='raise').compute() for n6 in names6]
+                except Exception as e:   # noqa: BLE001
+                    return (f'one dask array written to the array names {names6} in one dask computation (both puts '
+                            f'reported success): reading them back raised {type(e).__name__}: {str(e)[:120]}')
+                if not all(zoo.same_array(b, x) for b in backs):
+                    return (f'one dask array written to the array names {names6} in one dask computation: only one of '
+                            f'them holds it afterwards')
+                ctx.tag('joint-put-two-names-same-last-component')
                 d2 = tempfile.mkdtemp(prefix='c07_second_')
                 try:
                     second = NpyFileChunkStore(d2)
@@ -610,6 +626,16 @@ def run_complete_case(ctx, case, env):
     store = env.s3store() if b == 's3' else NpyFileChunkStore(env.root)
     x = np.arange(4, dtype=np.int16)
     sl = (slice(0, 4),)
+    # documented: "It is not necessary to call create_array first; the implementation will do so if appropriate" and
+    # the name need not belong to a written array - marking as the very first operation on a fresh bucket / directory
+    fresh_name = (f"{case['bucket']}{i}new/{case['array']}" if b == 's3' else f"c{i}new/{case['array']}")
+    try:
+        store.mark_complete(fresh_name)
+        if not store.is_complete(fresh_name):
+            return 'mark_complete as the first operation on a fresh array name did not stick'
+    except Exception as e:   # noqa: BLE001
+        return f'mark_complete as the first operation on a fresh array name raised {type(e).__name__}: {e}'
+    ctx.tag('complete-first-operation')
     try:
         store.create_array(name)
         store.put_chunk(name, sl, x)
